@@ -8,7 +8,7 @@ RULE = ("cases = the call histories of C08 extended with singular steps (a colum
         "independent systems in other precisions; each history is executed, the caller-visible objects are destroyed with the documented "
         "routines (pxgstrf_finalize, Destroy_SuperNode_SCP, Destroy_CompCol_NCP, StatFree), and the whole history is repeated twice more; "
         "oracle = live-set of an interposed allocator (ld --wrap malloc/calloc/realloc/free, every library allocation recorded with its call "
-        "chain) is empty after every repetition, /proc/self/task and /proc/self/fd counts unchanged. plus expert-driver calls over every fact (incl. the FACTORED two-step history) / trans / NC,NR / nrhs (incl. 0) combination with the same leak oracle; non-trivial = history contains a "
+        "chain) is empty after every repetition, /proc/self/task and /proc/self/fd counts unchanged. plus expert-driver calls over every fact (incl. the FACTORED two-step history) / trans / NC,NR / nrhs (incl. 0) combination with the same leak oracle, plus simple-driver calls in which one allocation request (or it and all later ones) fails inside the storage set-up of p?gstrf and the call returns info > n; non-trivial = history contains a "
         "non-success return or a refactorization; distinct = case text")
 ASSUMPTIONS = ["allocations made by the library while the harness is inside a library call are attributed to the library (flag set around calls)"]
 BUDGET = {
@@ -22,22 +22,62 @@ def _expert(c):
     return c
 
 
+@st.composite
+def oom_case(draw):
+    """simple-driver call with one allocation request made to fail (and, separately, that request and all later ones); only failures
+    inside the storage set-up of p?gstrf are judged here (nothing is handed back, so nothing may stay allocated); what else can
+    go wrong after a failed request is C14's subject"""
+    from props.common import factor_case
+    case = draw(factor_case(nmin=2, nmax=14, pmax=3, with_rhs=True, valdists=("dominant",), small_explicit_share=0.0, modes=("controlled",), stypes=("NC", "NC", "NR")))
+    s = case["set"]; s["api"] = "gssv"; s["prop"] = "C14"; s["mode"] = "oom"; s["leakcheck"] = 1
+    if s.get("nrhs", 1) == 0: s["nrhs"] = 1
+    s["ldb"] = s["n"]; s["ldx"] = s["n"]; s["timeout_ms"] = 12000
+    case["fracs"] = draw(st.lists(st.floats(0.0, 1.0, width=16), min_size=6, max_size=6))
+    case["ops"] = []
+    return case
+
+
+def evaluate(case, runner):
+    import core
+    if case["set"].get("mode") != "oom":
+        t = core.render(case); return [(t, runner.run(t))]
+    def run(extra):
+        c = dict(case); c["set"] = dict(case["set"]); c["set"].update(extra)
+        t = core.render(c); return (t, runner.run(t))
+    out = [run({})]
+    v0 = out[0][1]
+    if v0.get("v") != "pass": return out if str(v0.get("sig", "")).startswith("C17:") else []
+    K = int(v0.get("f", {}).get("allocs", 0))
+    ks = sorted(set(max(1, min(K, int(1 + f * K))) for f in case["fracs"])) if K > 0 else []
+    for k in ks:
+        for key in ("malloc_fail_only", "malloc_fail_from"):
+            t, v = run({key: k})
+            # crashes, hangs and wrong returns behind a failed request are C14's findings, not judged here
+            if v.get("v") == "pass" or str(v.get("sig", "")).startswith("C17:"):
+                out.append((t, v))
+    return out
+
+
 def strategy(tier):
     from props.common import expert_case
     h = hist_case(nmax=24 if tier == "quick" else 60, maxlen=7 if tier == "quick" else 16, allow_other=True, allow_singular=True, allow_tune=True, allow_query=True)
     # one-shot and two-step (FACTORED) expert-driver calls over all fact / trans / storage / nrhs (incl. 0) combinations
     x = expert_case(nmax=20 if tier == "quick" else 50, transes=("N", "T")).map(_expert)
-    return st.one_of(h, h, h, x)
+    return st.one_of(h, h, h, x, oom_case())
 
 
 def nontrivial(case, v):
     f = v.get("f", {})
+    if case["set"].get("mode") == "oom": return f.get("oom_leak_checked", 0) == 1
     if case["set"].get("mode") == "expert":
         s = case["set"]; return s.get("fact") == "FACTORED" or s.get("stype") == "NR" or s.get("nrhs", 1) == 0
     return f.get("singular_steps", 0) > 0 or any(o.startswith("REFACT") for o in case["ops"])
 
 
 def classify(case, v):
+    if case["set"].get("mode") == "oom":
+        f = v.get("f", {})
+        return ["mode=oom", "oom_return=%d" % int(f.get("oom_return", 0)), "oom_leak_checked=%d" % int(f.get("oom_leak_checked", 0)), "verdict=" + v.get("v", "?")]
     if case["set"].get("mode") == "expert":
         from props.common import expert_classes
         return ["mode=expert"] + expert_classes(case, v)
